@@ -932,11 +932,12 @@ __wrap_posix_spawn(pid_t *pid, const char *path,
 	(void)fa, (void)at, (void)envp;
 	if (spf_spawn > 0) {
 		spf_spawn--;
-		errno = spf_errno;
+		/* posix_spawn() RETURNS the error number, it does not return
+		 * -1, need not set errno and leaves *pid alone */
 		h_begin("spawnfault", vnow());
 		h_str("call", "posix_spawn", -1);
 		h_end();
-		return -1;
+		return spf_errno;
 	}
 	memset(&cur_spawn, 0, sizeof(cur_spawn));
 	cur_spawn.active = 1;
@@ -1250,6 +1251,12 @@ host_next_wake(double now, double due, int ioready)
 			w += step_now;
 			step_now = 0.;
 			wake_kind = "clockstep";
+			if (!o->b) {
+				/* a quiet moment it was: whatever else the world
+				 * has in store (a stall that would carry this
+				 * wake-up past an expiry) waits for the next one */
+				break;
+			}
 		}
 		if (stall_next > 0.) {
 			w += stall_next;
@@ -1778,6 +1785,7 @@ run_epoch(int ep, const char *histfn)
 	h_int("n", ep);
 	h_end();
 	alarm(20);
+	scrub_stack();
 	rc = echsd_main(2, argv);
 	h_begin("main-returned", vnow());
 	h_int("rc", rc);
@@ -1844,6 +1852,7 @@ run_plan(const char *script, const char *histfn)
 int
 main(int argc, char *argv[])
 {
+	no_aslr(argv);
 	if (argc >= 4 && !strcmp(argv[1], "run")) {
 		return run_plan(argv[2], argv[3]);
 	} else if (argc >= 2 && !strcmp(argv[1], "serve")) {
